@@ -3,6 +3,7 @@
    permuted, duplicated, late, unknown-id and stale-id responses, pushes and requests. *)
 From Coq Require Import List NArith.
 From OAP Require Import Base.Bytes Base.Res Gen.Consts Model.Metadata Model.Header Model.Waiters Proofs.WaitersP.
+From OAP Require Import Model.ChanForms Gen.Chans Proofs.ChanFormsP.
 Import ListNotations.
 Local Open Scope N_scope.
 
@@ -46,6 +47,12 @@ Theorem C05_returned_packet_is_a_response : forall pe acts k id p,
   w_ty p = PTResponse /\ w_status p = c_StatusSuccess /\ w_rid p = id.
 Proof. exact returned_packet_is_response. Qed.
 
+(* the dispatcher hands a response to its waiter without ever waiting for it: the one send in handleResponse is a
+   case of a select with a default clause (Gen/Chans.v) - a slow or departed caller cannot hold up other calls *)
+Theorem C05_dispatcher_never_blocked_by_a_waiter_in_source :
+  all_nonblocking waiter_sends = true /\ List.length waiter_sends = 1%nat.
+Proof. exact dispatcher_never_blocked_by_a_waiter. Qed.
+
 Print Assumptions C05_returns_own_id.
 Print Assumptions C05_returned_packet_has_own_id.
 Print Assumptions C05_done_is_final.
@@ -53,3 +60,4 @@ Print Assumptions C05_unsolicited_dropped.
 Print Assumptions C05_duplicate_dropped.
 Print Assumptions C05_error_mapping.
 Print Assumptions C05_returned_packet_is_a_response.
+Print Assumptions C05_dispatcher_never_blocked_by_a_waiter_in_source.
